@@ -172,7 +172,7 @@ def run_call_model(ctx, res, seed):
     res.case(('call', seed), True, {'call_model_seed': seed, 'batch': N})
 
 
-def train(spec_seed, executor, steps, delay=0.0):
+def train(spec_seed, executor, steps, delay=0.0, direct=False):
     x0, x1 = Variable('x0', domain=(0.0, 1.0)), Variable('x1', domain=(-1.0, 1.0))
     u, v = Variable('u', domain=(0.5, 2.5)), Variable('v')
     sgk = dict(opt_args={'locally_biased': False, 'maxfun': 60})
@@ -198,7 +198,13 @@ def train(spec_seed, executor, steps, delay=0.0):
                    delay_scale=delay)
     system = System(c1, c2, name='par')
     np.random.seed(spec_seed % 2 ** 31)
-    system.fit(max_iter=steps, num_refine=25, max_tol=-np.inf, executor=executor)
+    if direct:
+        # refine() called directly, several times in a row, WITHOUT recording the steps in the history (the length of the history
+        # is then the same at every call although the surrogate changes)
+        for _ in range(steps):
+            system.refine(num_refine=25, executor=executor)
+    else:
+        system.fit(max_iter=steps, num_refine=25, max_tol=-np.inf, executor=executor)
     np.random.seed(5)
     xs = system.sample_inputs(6)
     pred = system.predict(xs, executor=executor)
@@ -237,6 +243,23 @@ def run_fit(ctx, res, seed):
             res.failures.append({'kind': 'training-with-executor-differs-from-serial', 'input': {'seed': seed, 'executor': name, 'steps': steps},
                                  'differs_in': [k for k in a if a[k] != b.get(k)],
                                  'observed': a['_history'], 'expected': b['_history']})
+        res.hit('fit-' + name)
+    # direct refine() calls through a pool vs serially
+    ref_d = train(seed, None, steps, direct=True)
+    for name, mk in (('threads-4-direct-refine', lambda: ThreadPoolExecutor(max_workers=4)),):
+        ex = mk()
+        try:
+            got_d = train(seed, ex, steps, delay=0.001, direct=True)
+        except Exception as e:  # noqa: BLE001
+            got_d = None
+            res.failures.append({'kind': 'direct-refine-with-executor-raised', 'input': {'seed': seed, 'executor': name, 'steps': steps},
+                                 'observed': repr(e)[:300]})
+        finally:
+            ex.shutdown(wait=True)
+        if got_d is not None and got_d != ref_d:
+            a, b = json.loads(got_d), json.loads(ref_d)
+            res.failures.append({'kind': 'direct-refine-with-executor-differs-from-serial', 'input': {'seed': seed, 'executor': name, 'steps': steps},
+                                 'differs_in': [k for k in a if a[k] != b.get(k)]})
         res.hit('fit-' + name)
     res.case(('fit', seed), True, {'fit_seed': seed, 'steps': steps, 'executors': [c[0] for c in configs]})
 
